@@ -46,6 +46,9 @@ ResultsOf(tb, cfg, names) ==
     { [stream |-> key[1], fn |-> key[2], flags |-> acc[key],
        schars |-> names[key[1]], pchars |-> names[ModName(key[2])], tchars |-> names[key[2]]] : key \in DOMAIN acc }
 
+\* row i was evaluated by one of the results in RS
+RowSeen(RS, i) == \E r \in RS : r.flags[i] # MASKED
+
 \* observed frame: sequence of columns [name (chars), vals (one per row; MASKED = empty)]
 \* o.axes = [t, z, y, x]: the column names the store was told to use for time / depth / latitude / longitude
 AxisNamesOf(o) == { o.axes.t, o.axes.z, o.axes.y, o.axes.x }
@@ -57,7 +60,8 @@ Bijections(A, B) == { f \in [A -> B] : \A a1, a2 \in A : f[a1] = f[a2] => a1 = a
 NoCollision(R) == \A r1, r2 \in R : r1 # r2 => Sanitize(RawName(r1)) # Sanitize(RawName(r2))
 
 FrameOK(frame, tb, cfg, names, o) ==
-    LET R    == { r \in ResultsOf(tb, cfg, names) : Passes(r, o) }
+    LET All  == ResultsOf(tb, cfg, names)
+        R    == { r \in All : Passes(r, o) }
         n    == NRows(tb)
         dataNames == IF o.write_data THEN { names[r.stream] : r \in R } ELSE {}
         cols == ColSet(frame)
@@ -72,8 +76,10 @@ FrameOK(frame, tb, cfg, names, o) ==
                       \A r \in R : /\ f[r].vals = r.flags
                                    /\ IsSafe(f[r].name)
                                    /\ NoCollision(R) => SafeOf(f[r].name, RawName(r)),
+      \* axis columns: present whenever the run collected anything (the filters select results, not axes), and equal
+      \* to the source on every row that some collected result evaluated -- whichever result comes first
       axes    |-> /\ (~o.write_axes => axis = {})
-                  /\ (o.write_axes /\ R # {}) =>
+                  /\ (o.write_axes /\ All # {}) =>
                         /\ tb.hastime => \E c \in axis : c.name = o.axes.t
                         /\ (tb.z # <<>>) => \E c \in axis : c.name = o.axes.z
                         /\ (tb.lat # <<>>) => \E c \in axis : c.name = o.axes.y
@@ -82,20 +88,23 @@ FrameOK(frame, tb, cfg, names, o) ==
                         LET src == CASE c.name = o.axes.t -> TimeOf(tb) [] c.name = o.axes.z -> tb.z
                                      [] c.name = o.axes.y -> tb.lat [] OTHER -> tb.lon
                         IN  IF src = <<>> THEN \A i \in 1..Len(c.vals) : c.vals[i] = NA      \* no such input: empty
-                            ELSE Len(src) = Len(c.vals) /\ \A i \in 1..Len(src) : c.vals[i] \in {src[i], NA},
-      \* one data column per stream that has a result: source values, at least on the rows of one of its results
+                            ELSE /\ Len(src) = Len(c.vals)
+                                 /\ \A i \in 1..Len(src) : c.vals[i] \in {src[i], NA}
+                                 /\ \A i \in 1..Len(src) : RowSeen(All, i) => c.vals[i] = src[i],
+      \* one data column per stream that has a result that passes: the source values on every row that one of
+      \* those results evaluated
       data    |-> /\ (~o.write_data => data = {})
                   /\ o.write_data => \A s \in { r.stream : r \in R } : \E c \in data :
                         /\ c.name = names[s]
                         /\ \A i \in 1..n : c.vals[i] \in {tb.data[s][i], NA}
-                        /\ \E r \in R : r.stream = s /\ \A i \in 1..n : r.flags[i] # MASKED => c.vals[i] = tb.data[s][i] ]
+                        /\ \A i \in 1..n : RowSeen({ r \in R : r.stream = s }, i) => c.vals[i] = tb.data[s][i] ]
 
 \* a frame that satisfies the property, built from the model itself (used by MC_Store to show that
 \* FrameOK is satisfiable on every instance, and as the reference of the naming rule)
 SpecSafe(raw) == LET s == Sanitize(raw) IN IF Len(s) >= 1 /\ s[1] \notin Digits THEN s ELSE <<"v", "_">> \o s
 SpecFrame(tb, cfg, names, o) ==
     LET R  == { r \in ResultsOf(tb, cfg, names) : Passes(r, o) }
-        ax == IF o.write_axes /\ R # {}
+        ax == IF o.write_axes /\ ResultsOf(tb, cfg, names) # {}
               THEN (IF tb.hastime THEN << [name |-> o.axes.t, vals |-> tb.t] >> ELSE <<>>)
                    \o (IF tb.z # <<>> THEN << [name |-> o.axes.z, vals |-> tb.z] >> ELSE <<>>)
                    \o (IF tb.lat # <<>> THEN << [name |-> o.axes.y, vals |-> tb.lat] >> ELSE <<>>)
